@@ -344,3 +344,120 @@ PROPS['C01'] = {
     'partial': ['XML surface variations and the object-model comparison are exercised by the XML model (pending in this round); framing: configuration, attachments and inner XML bytes'],
     'level_text': 'Kernel-checked framing theorems over the faithful model of decrypt_kdbx4; the model is run against Database::get_xml/parse on files of every conforming layout built by an independent builder.',
 }
+
+
+def judge_xml(pid):
+    def judge(case, out):
+        v = []
+        m = out.get('model') or {}
+        real = case['real']
+        ch = case.get('checks', {})
+        sub = case.get('sub')
+        feats = case.get('features', [])
+        feat = feats[0] if len(feats) == 1 else ('+'.join(feats) if feats else 'none')
+        save = norm_site(real.get('save'))
+        reopen = norm_site(real.get('reopen'))
+        # ---- correspondence (every property that uses this op)
+        if save == 'ok':
+            if not m.get('dump_ok', True):
+                v.append(('DISAGREE', 'xml:dump-panic', 'model predicts a panic in save (byte value not UTF-8), real save returned Ok'))
+            elif ch.get('unwrap') == 'ok' and m.get('dump_events') != case.get('events'):
+                a, b = m.get('dump_events') or [], case.get('events') or []
+                i = next((i for i in range(min(len(a), len(b))) if a[i] != b[i]), min(len(a), len(b)))
+                v.append(('DISAGREE', 'xml:dump-events', 'event %d: model %s, real %s' % (i, str(a[i:i+2])[:160], str(b[i:i+2])[:160])))
+            if 'parse' in m and reopen is not None:
+                mp = m.get('parse')
+                if mp != reopen:
+                    v.append(('DISAGREE', 'xml:parse-outcome', 'model %s, real %s' % (mp, reopen)))
+                elif mp == 'ok':
+                    d = diff_path(m.get('content'), real.get('reopen_content'), 'content')
+                    if d:
+                        v.append(('DISAGREE', 'xml:parse-content', d))
+        elif isinstance(save, str) and save.startswith('panic'):
+            if m.get('dump_ok', True):
+                v.append(('DISAGREE', 'xml:dump-panic', 'real save panicked (%s), model predicts no panic' % save))
+        # ---- specifications
+        if pid == 'C03' and sub == 'lossless':
+            if save != 'ok':
+                v.append(('SPECFAIL', 'c03:save-fails:%s' % save[:60], ''))
+            elif reopen != 'ok':
+                v.append(('SPECFAIL', 'c03:reopen-fails', ch.get('reopen_error', reopen)))
+            else:
+                if not ch.get('reopen_equal'):
+                    d = diff_path(case['db'], real.get('reopen_content'), 'db')
+                    v.append(('SPECFAIL', 'c03:content-differs', d or 'configuration / attachments differ (config %s, attachments %s)' % (ch.get('reopen_config_equal'), ch.get('reopen_attachments_equal'))))
+            if not ch.get('unchanged', True):
+                v.append(('SPECFAIL', 'c03:save-modified-database', ''))
+            if m.get('roundtrip') == 'ok' and diff_path(m.get('roundtrip_content'), case['db']):
+                v.append(('DISAGREE', 'xml:model-roundtrip', 'the model of writer+reader does not round-trip this database: ' + str(diff_path(m.get('roundtrip_content'), case['db']))[:200]))
+        if pid == 'C07' and sub == 'lossless' and save == 'ok':
+            if ch.get('unwrap') != 'ok':
+                v.append(('SPECFAIL', 'c07:not-wellformed:%s' % ch.get('unwrap'), 'clause %s of the strict KDBX4 reader fails' % ch.get('unwrap')))
+            else:
+                for k in ('config_labels_match', 'attachments_match', 'xml_wellformed'):
+                    if not ch.get(k):
+                        v.append(('SPECFAIL', 'c07:%s' % k, ''))
+                fr = ch.get('fresh', {})
+                for name, f in fr.items():
+                    if f['len'] != f['want_len']:
+                        v.append(('SPECFAIL', 'c07:size-%s' % name, '%d instead of %d bytes' % (f['len'], f['want_len'])))
+                # the independent reader (Lean model of the XML mapping on the independently tokenised, independently decrypted payload)
+                if m.get('parse') != 'ok':
+                    v.append(('SPECFAIL', 'c07:independent-reader-rejects', str(m.get('parse'))))
+                elif diff_path(m.get('content'), case['db']):
+                    v.append(('SPECFAIL', 'c07:independent-reader-decodes-differently', diff_path(m.get('content'), case['db'])))
+        if pid == 'C08' and sub == 'lossless' and save == 'ok' and ch.get('unwrap') == 'ok':
+            for l in ch.get('leaks', []):
+                v.append(('SPECFAIL', 'c08:leak:%s' % l.split(':')[0], l))
+            for l in ch.get('protected_leaks', []):
+                v.append(('SPECFAIL', 'c08:protected:%s' % l.split(':')[0], l))
+        if pid == 'C09' and sub == 'lossless' and save == 'ok' and ch.get('unwrap') == 'ok':
+            for name, f in ch.get('fresh', {}).items():
+                if f['len'] != f['want_len']:
+                    v.append(('SPECFAIL', 'c09:size-%s' % name, '%d instead of %d bytes' % (f['len'], f['want_len'])))
+                if f['all_zero']:
+                    v.append(('SPECFAIL', 'c09:all-zero-%s' % name, ''))
+                if f['repeat']:
+                    v.append(('SPECFAIL', 'c09:repeated-%s' % name, f['hex']))
+        if pid == 'C12' and sub == 'hostile':
+            if isinstance(save, str) and save.startswith('panic'):
+                v.append(('SPECFAIL', 'c12:%s:save-panics' % feat, save))
+            elif save == 'ok':
+                if isinstance(reopen, str) and reopen.startswith('panic'):
+                    v.append(('SPECFAIL', 'c12:%s:reopen-panics' % feat, reopen))
+                elif reopen != 'ok':
+                    v.append(('SPECFAIL', 'c12:%s:saved-file-does-not-open' % feat, ch.get('reopen_error', str(reopen))[:200]))
+        return v or [('AGREE', '', '')]
+    return judge
+
+
+XML_ASSUME = ['the xml-rs tokenizer and emitter are modelled by a contract (XmlRsContract.view) established by probing and exercised on every case',
+              'HashMap iteration orders are read off the in-memory database and passed to the model; protected plaintexts are compared as bytes']
+XML_RULE = ('databases built through the public API with every field of every public struct populated (strings from ASCII / markup / non-ASCII / astral / CR LF TAB / '
+            'leading-trailing-blank classes, times over years 1..9999 and both signs, integer extremes, colours incl. components < 16, histories, custom data protected and not, '
+            'icons, pool binaries compressed and not, inner-header attachments, deleted objects) x 3 outer ciphers x {AES-KDF, Argon2d, Argon2id} x gzip on/off x 3 inner ciphers x '
+            'credential compositions; each: real save, independent strict unwrap, tokenise, Lean writer model vs real events, Lean reader model vs real re-open, real re-open vs original')
+for pid, extra_rule, txt, part in [
+    ('C03', '', 'Kernel-checked codec round trips and key-stream threading; the faithful Lean models of the XML writer, the xml-rs contract and the XML reader are compared event-by-event and '
+            'field-by-field with the real save/open on every generated database, and save∘open = id is checked on the real code with PartialEq.',
+     ['C03_roundtrip for the whole schema is stated, proved for the codecs and the container framing, and validated (not proved) for the struct-level XML mapping']),
+    ('C07', '; oracle clauses of the strict reader are named individually', 'Kernel-checked: the library layout is one of the conforming layouts and decodes (framing theorem), sizes of IV/keys/seeds are '
+            'those the algorithms require (decide over constants regenerated from the source). Every real save output is unwrapped by an independent strict reader and decoded by the Lean reader model.',
+     ['the literal-CR question (F12): the emitter writes CR unescaped; xml-rs does not normalise line ends, a conforming XML processor would deliver LF — reported in DESIGN.md, not counted as a violation of C07']),
+    ('C08', '; every string of the database (>= 5 bytes) is searched for in the output raw / base64 / hex / UTF-16', 'Kernel-checked: protected values consume pairwise disjoint, consecutive key-stream intervals in document order '
+            '(no two-time pad), for every map order. The real output is searched for every string of the database in four encodings and for XML structure; protected ciphertexts are compared with v XOR keystream.',
+     ['"ciphertext reveals nothing" is an assumption on the outer cipher, not a theorem']),
+    ('C09', '; the four random values of every save are collected across the run', 'Kernel-checked: save consumes the random source as four consecutive non-overlapping slices of the required sizes and each header value is its slice. '
+            'Across the run the extracted values have the required lengths, are not all-zero and never repeat.',
+     ['that the source is fresh OS randomness is the getrandom crate\'s contract']),
+]:
+    PROPS[pid] = {'ops': ['save'], 'judge': judge_xml(pid), 'rule': XML_RULE + extra_rule + '; every case is non-trivial (>= 10 field kinds populated); distinct by hash of the database',
+                  'assumptions': XML_ASSUME + FRAME_ASSUME, 'level_text': txt, 'partial': part}
+PROPS['C12'] = {
+    'ops': ['save-hostile'], 'judge': judge_xml('C12'), 'assumptions': XML_ASSUME,
+    'rule': 'as C03, but each database carries exactly one hostile feature class out of {empty string, blank string, control character, non-character, extreme date, byte value (UTF-8 / not UTF-8), '
+            'reserved time-stamp name, non-name time-stamp key, empty custom-data key, blank field key, tag with separator or blank, empty icon data, empty pool-binary content}; '
+            'non-trivial = the feature was actually placed; failures are keyed by (feature class, outcome)',
+    'partial': ['C12 (full) is false on the unchanged code: one witness per failing feature class (recorded as known findings); C12_partial for the readable domain'],
+    'level_text': 'Kernel-checked over the models of writer, xml-rs contract and reader: witnesses for each unreadable class; the hostile generator runs the real save/open and the models on every class.',
+}
